@@ -52,13 +52,14 @@ SCHEMA_FAULTS = {
     "string_default_is_object": {"type": "string", "format": "uuid", "default": {"a": 1}},
     "tuple_with_bad_slot": {"type": "array", "prefixItems": [{"type": "string"}, {"type": "array"}]},
 }
+_NUM = ["One", "Two", "Six", "Ten", "Uno", "Due"]
 OP_FAULTS = ["optional_path_param", "duplicate_param", "unparseable_body", "unsupported_body_only", "invalid_status",
              "response_dangling_ref", "param_bad_schema", "param_dangling_ref"]
 
 
 @st.composite
 def cases(draw, tier):
-    prof = docs.profile(max_schemas=5, max_props=3, max_ops=3, max_depth=1, desc=False, allof=True)
+    prof = docs.profile(max_schemas=5, max_props=3, max_ops=3, max_depth=1, desc=False, allof=True, component_unions=True, prefix_items=True)
     ir = draw(docs.doc_ir(prof, min_schemas=2))
     n = draw(st.integers(1, 3))
     ins = []
@@ -86,6 +87,43 @@ def cases(draw, tier):
             ir["ops"][oi]["params"].append({"name": nm, "in": loc, "required": False, "schema": {"k": "str"}, "level": "op"})
             ins.append({"kind": "shadowed_pathlevel", "host": oi, "loc": loc, "name": nm, "n": len(ins),
                         "fault": draw(st.sampled_from(["array_without_items", "dangling_ref", "invalid_default"]))})
+    if draw(st.integers(0, 6)) == 0:
+        # the same unsupported piece at two or three places: each omitted piece needs a diagnostic of its own, even when the
+        # diagnostics read alike (they do not name the piece)
+        ins = [{"kind": "twins", "what": draw(st.sampled_from(["alias_schemas", "alias_params", "schemaless_media", "schemaless_media"])),
+                "count": draw(st.integers(2, 3)), "n": 0}]
+    # dependants of the schema hosts through every kind of reference the generator follows: each is a *good* piece of D that must go
+    # away with its host in D' (and be named), never stay behind importing a module that was not generated
+    for i, h in enumerate(sorted({x["host"] for x in ins if x["kind"] in ("prop", "allof_child")})):
+        if draw(st.integers(0, 2)) == 0:
+            continue
+        ref = {"k": "ref", "name": h}
+        route = draw(st.sampled_from(["ref", "array", "prefix", "prefix_all", "union", "nullable_ref", "addl", "nested", "via_array_alias",
+                                      "via_union_alias", "array_of_union"]))
+        target = ref
+        extra = []
+        if route in ("via_array_alias", "via_union_alias"):
+            alias = "YyAlias" + _NUM[i % 6]
+            extra.append([alias, {"k": "array", "items": ref} if route == "via_array_alias" else
+                          {"k": "union", "members": [ref, {"k": "int"}], "how": "oneOf", "_component_union": True}])
+            target = {"k": "ref", "name": alias}
+        sch = {"ref": target, "via_array_alias": target, "via_union_alias": target,
+               "array": {"k": "array", "items": ref},
+               "prefix": {"k": "array", "items": {"k": "union", "members": [ref, {"k": "str"}], "how": "anyOf"}, "as_prefix": 1},
+               "prefix_all": {"k": "array", "items": {"k": "union", "members": [{"k": "int"}, ref], "how": "anyOf"}, "as_prefix": 2},
+               "union": {"k": "union", "members": [ref, {"k": "int"}], "how": draw(st.sampled_from(["anyOf", "oneOf"]))},
+               "nullable_ref": {"k": "ref", "name": h, "nullable": True},
+               "addl": {"k": "object", "props": [], "addl": ref, "allOf": []},
+               "nested": {"k": "object", "props": [["deep", ref, True]], "addl": None, "allOf": []},
+               "array_of_union": {"k": "array", "items": {"k": "union", "members": [{"k": "str"}, ref], "how": "oneOf"}}}[route]
+        user = ["YyUser" + _NUM[i % 6], {"k": "object", "props": [["route", sch, draw(st.booleans())], ["label", {"k": "str"}, False]], "addl": None, "allOf": []}]
+        new = extra + [user]
+        if draw(st.booleans()):
+            ir["schemas"] = new + ir["schemas"]     # declared before the host: processed first, retried later
+        else:
+            ir["schemas"] = ir["schemas"] + new
+        if route.startswith("prefix"):
+            ir["version"] = "3.1.0"
     cfg = {"literal_enums": draw(st.booleans())}
     if draw(st.integers(0, 2)) == 0:
         # some components are renamed through the class_overrides option (class name, module name or both): containment must hold
@@ -150,6 +188,32 @@ def apply(doc, ir, ins) -> tuple[dict, list]:
             else:
                 schemas[name] = {"allOf": [{"$ref": "#/components/schemas/" + x["host"]}, {"type": "object", "properties": {"zzown": {"type": "array"}}}]}
             hosts.append(("schema", name))
+        elif x["kind"] == "twins":
+            comp = d["components"]
+            objs = [nm for nm, sc in ir["schemas"] if sc["k"] == "object"]
+            if x["what"] == "alias_schemas" and objs:
+                for j in range(x["count"]):
+                    schemas[f"ZzAlias{'ABC'[j]}x"] = {"$ref": "#/components/schemas/" + objs[0]}
+                    hosts.append(("schema", f"ZzAlias{'ABC'[j]}x"))
+            elif x["what"] == "alias_params":
+                comp.setdefault("parameters", {})["ZzLimit"] = {"name": "zzlimit", "in": "query", "schema": {"type": "integer"}}
+                for j in range(x["count"]):
+                    comp["parameters"][f"ZzPar{'ABC'[j]}x"] = {"$ref": "#/components/parameters/ZzLimit"}
+                    hosts.append(("component_parameter", f"ZzPar{'ABC'[j]}x"))
+            elif x["what"] == "schemaless_media":
+                with_body = [i for i, op in enumerate(ir["ops"]) if ((d["paths"][op["path"]][op["method"]].get("requestBody") or {}).get("content"))]
+                if not with_body:
+                    op0 = ir["ops"][0]
+                    d["paths"][op0["path"]][op0["method"]]["requestBody"] = {"content": {"application/json": {"schema": {"type": "string"}}}}
+                for i_op, op in enumerate(ir["ops"]):
+                    o = d["paths"][op["path"]][op["method"]]
+                    content = (o.get("requestBody") or {}).get("content")
+                    if isinstance(content, dict) and content:
+                        for mt in ["application/x-zz-one", "application/x-zz-two", "application/x-zz-six"][:x["count"]]:
+                            content[mt] = {}
+                            hosts.append(("media", mt))
+                        hosts.append(("op", i_op))
+                        break
         elif x["kind"] == "shadowed_pathlevel":
             op = ir["ops"][x["host"]]
             item = d["paths"][op["path"]]
@@ -301,6 +365,12 @@ def run(case, ctx):
         site0.update(c01.removed_ref_via_union(ir, res.diag_text()))
         if not res.errors:
             ctx.violation("bad_piece.diagnosed", site0, f"no diagnostics for {case['ins']!r}"[:300])
+        if case["ins"] and case["ins"][0]["kind"] == "twins":
+            n_pieces = sum(1 for h in hosts if h[0] != "op")
+            ctx.label("twins:" + case["ins"][0]["what"])
+            if len(res.errors) < n_pieces:
+                ctx.violation("bad_piece.each_diagnosed", {"what": case["ins"][0]["what"]},
+                              f"{n_pieces} omitted pieces, {len(res.errors)} diagnostics: {res.diag_text()[:300]!r}")
         snap1 = sut.snapshot(res.out)
         diag = res.diag_text()
         missing_owners = set()
